@@ -1,6 +1,6 @@
 // `v.extend(w); v.sort_unstable(); v.dedup();` on Vec<u64> id lists (inside verus!): trusted std specifications and PROVED set-level lemmas.
 // Same text as the corresponding items of units/engine_write_paths.vrs (which predates this file and carries its own copy).
-//@trusted std specs (prelude/sorted_dedup_env.rs): <[T]>::sort_unstable = a permutation of the input (same multiset), sorted w.r.t. cmp_spec when T obeys it; Vec::dedup = `dedup_spec` (walk left to right, drop an element iff it is eq_spec to the last RETAINED one: only ADJACENT duplicates go), when T obeys eq_spec; `Vec<u64>::extend(Vec<u64>)` renamed to vx_vec_extend (concatenation)
+//@trusted std specs (prelude/sorted_dedup_env.rs): <[T]>::sort_unstable and <[T]>::sort = a permutation of the input (same multiset), sorted w.r.t. cmp_spec when T obeys it; Vec::dedup = `dedup_spec` (walk left to right, drop an element iff it is eq_spec to the last RETAINED one: only ADJACENT duplicates go), when T obeys eq_spec; `Vec<u64>::extend(Vec<u64>)` renamed to vx_vec_extend (concatenation)
 pub open spec fn seq_sorted<T: Ord>(s: Seq<T>) -> bool {
     forall|i: int, j: int| 0 <= i < j < s.len() ==> #[trigger] s[i].cmp_spec(&s[j]) != core::cmp::Ordering::Greater
 }
@@ -11,6 +11,9 @@ pub open spec fn dedup_spec<T: PartialEq>(s: Seq<T>) -> Seq<T> decreases s.len()
     }
 }
 pub assume_specification<T: Ord>[<[T]>::sort_unstable](s: &mut [T])
+    ensures final(s)@.len() == old(s)@.len(), final(s)@.to_multiset() == old(s)@.to_multiset(),
+        <T as OrdSpec>::obeys_cmp_spec() ==> seq_sorted(final(s)@);
+pub assume_specification<T: Ord>[<[T]>::sort](s: &mut [T])
     ensures final(s)@.len() == old(s)@.len(), final(s)@.to_multiset() == old(s)@.to_multiset(),
         <T as OrdSpec>::obeys_cmp_spec() ==> seq_sorted(final(s)@);
 pub assume_specification<T: PartialEq, A: std::alloc::Allocator>[Vec::<T, A>::dedup](v: &mut Vec<T, A>)
